@@ -5,6 +5,7 @@ import (
 	"regexp"
 	"sort"
 	"strings"
+	"verifsa/internal/prover"
 
 	"golang.org/x/tools/go/ssa"
 
@@ -276,6 +277,42 @@ func emitRule(c *core.Ctx, name string, fn *ssa.Function, sl *ssa.Slice, raw boo
 		}
 	}
 	if part == nil {
+		// the other spelling: part := make([]byte, 6+len(payload)); copy(part, header); copy(part[6:], payload)
+		if payload.Referrers() != nil {
+			for _, r := range *payload.Referrers() {
+				call, ok := r.(*ssa.Call)
+				if !ok {
+					continue
+				}
+				if b, ok := call.Call.Value.(*ssa.Builtin); !ok || b.Name() != "copy" || call.Call.Args[1] != payload {
+					continue
+				}
+				dst := call.Call.Args[0]
+				if sl, ok := dst.(*ssa.Slice); ok {
+					dst = sl.X
+				}
+				ms, ok := dst.(*ssa.MakeSlice)
+				if !ok {
+					continue
+				}
+				segs, clean := copiesInto(ms)
+				hdr, _ := headerOf(fn)
+				p := prover.New(fn)
+				// size: exactly header + payload
+				d := p.LinOf(ms.Len).Add(prover.Const(int64(len(hdr))), -1).Add(p.LenOf(payload), -1)
+				sized := d.IsConst() && d.C == 0
+				okShape := clean && len(segs) == 2 && segs[1].call == call && segs[1].off == 6 && len(hdr) == 6 && len(literalOctets(segs[0].src)) == 6
+				emitted := false
+				for _, rr := range *ms.Referrers() {
+					if st, ok := rr.(*ssa.Store); ok && st.Val == ssa.Value(ms) {
+						emitted = true
+					}
+				}
+				c.Decide(okShape && sized && emitted, "C06-COVER", name+"#emit", c.Prog.Pos(call.Pos()), "part = make(6+len(payload)); header copied at 0, payload copied unmodified at 6; part appended to the result",
+					fmt.Sprintf("the part buffer is not exactly the six header octets followed by the payload (two copies at 0 and 6, nothing else: %v; length 6+len(payload): %v (%s); handed to the result: %v)", okShape, sized, d.String(), emitted))
+				return
+			}
+		}
 		c.Fail("C06-COVER", name+"#emit", pos, "the payload is not appended to the part buffer")
 		return
 	}
